@@ -331,7 +331,9 @@ c('AlternateTime::new', U,
           "r is Ok ==> r->Ok_0.std == std && r->Ok_0.dst == dst && r->Ok_0.dst_start == dst_start && r->Ok_0.dst_start_time == dst_start_time && r->Ok_0.dst_end == dst_end && r->Ok_0.dst_end_time == dst_end_time")
 AWF = "rd_wf(self.dst_start) && rd_wf(self.dst_end) && -604800 < self.dst_start_time < 604800 && -604800 < self.dst_end_time < 604800 && -86400 < self.std.ut_offset < 86400 && -86400 < self.dst.ut_offset < 86400"
 c('UtcDateTime::from_timespec', U,
-  ensures="r is Ok ==> (1 <= r->Ok_0.month <= 12 && r->Ok_0.hour < 24 && r->Ok_0.minute < 60 && r->Ok_0.second < 60)")
+  ensures="r is Ok ==> (1 <= r->Ok_0.month <= 12 && 1 <= r->Ok_0.month_day <= month_len(r->Ok_0.year as int, r->Ok_0.month as int) && r->Ok_0.hour < 24 && r->Ok_0.minute < 60 && r->Ok_0.second < 60 "
+          "&& epoch_day(r->Ok_0.year as int, r->Ok_0.month as int, r->Ok_0.month_day as int) * 86400 + r->Ok_0.hour * 3600 + r->Ok_0.minute * 60 + r->Ok_0.second == unix_time), "
+          "r is Err ==> (unix_time < -67768100567971200 || unix_time >= 67767976233532800)")  # = first second of year i32::MIN / of year i32::MAX+1 (lemma year_range_consts)
 c('AlternateTime::find_local_time_type', U, requires=AWF,
   ensures="r is Ok ==> (*r->Ok_0 == self.std || *r->Ok_0 == self.dst)")
 c('NaiveDateTime::Datelike__year', 'kani:vk_ndt_accessors,vk_date_bits', ensures="r as int == v_year(self.date)")
